@@ -60,3 +60,44 @@ func zzH_c07_mac_input() {
 	vAssert("mac-size", m.Size() == 32)
 	vReach("end")
 }
+
+// H07-payload-size: the payload size chosen for the next record is between 1 and the protocol
+// maximum of 2^14 bytes for every count of records and bytes already sent, with and without
+// dynamic record sizing, for application data and other record types, and for each kind of
+// record protection (none, AEAD, CBC+MAC).
+//
+//verif:property C07
+//verif:property C06
+//verif:expect-reach end
+//verif:bound universal over packetsSent and bytesSent (64 symbolic bits each, non-negative); explicit IV length 0, 8 or 16; record protection none, an AEAD with 16 bytes overhead, or a CBC mode with 16-byte blocks and a 32-byte MAC; dynamic sizing on/off; record type application data or handshake
+func zzH_c07_payload_size() {
+	c := &Conn{config: &Config{DynamicRecordSizingDisabled: vBool("sizingDisabled")}}
+	c.packetsSent = int64(vU64("packetsSent") >> 1)
+	c.bytesSent = int64(vU64("bytesSent") >> 1)
+	iv := []int{0, 8, 16}[vChoice("explicitIV", 3)]
+	switch vChoice("protection", 3) {
+	case 1:
+		c.out.cipher = zzAEADRec{}
+	case 2:
+		c.out.cipher = zzCBCRec{}
+		c.out.mac = zzMacRec{}
+	}
+	typ := recordTypeApplicationData
+	if vBool("handshakeRecord") {
+		typ = recordTypeHandshake
+	}
+	before := c.packetsSent
+	n := c.maxPayloadSizeForWrite(typ, iv)
+	vAssert("payload-size-within-protocol-limits", n >= 1 && n <= maxPlaintext)
+	if typ != recordTypeApplicationData || c.config.DynamicRecordSizingDisabled {
+		vAssert("full-size-when-sizing-does-not-apply", n == maxPlaintext && c.packetsSent == before)
+	}
+	vReach("end")
+}
+
+// zzCBCRec is a block mode of 16-byte blocks (the shape of SM4-CBC), used only for its type.
+type zzCBCRec struct{}
+
+func (zzCBCRec) BlockSize() int               { return 16 }
+func (zzCBCRec) CryptBlocks(dst, src []byte) {}
+func (zzCBCRec) SetIV(iv []byte)              {}
